@@ -2,6 +2,7 @@ package c13
 
 import (
 	"fmt"
+	"github.com/go-kid/ioc/container"
 	"math"
 	"os"
 	"reflect"
@@ -50,6 +51,24 @@ func (r *RunPP) Run() error                                                   { 
 func (r *RunPP) PostProcessBeforeInitialization(c any, n string) (any, error) { return c, nil }
 func (r *RunPP) PostProcessAfterInitialization(c any, n string) (any, error)  { return c, nil }
 
+// a runner whose type is not a struct (a named slice registered by pointer; element 0 carries its bookkeeping)
+type SliceRun []*zoo.Beh
+
+func (s *SliceRun) Run() error     { return run((*s)[0]) }
+func (s *SliceRun) Naming() string { return (*s)[0].Alias }
+
+// a runner that is also a component-factory post-processor (the sanctioned way for a component to get hold of the factory)
+type RunFPP struct {
+	zoo.Core
+	factory container.Factory
+}
+
+func (r *RunFPP) Run() error { return run(r.B) }
+func (r *RunFPP) PostProcessComponentFactory(f container.Factory) error {
+	r.factory = f
+	return nil
+}
+
 // causeless: a legal error value whose Cause() is nil (e.g. an OpError without inner error).
 type causeless struct{ op string }
 
@@ -87,7 +106,7 @@ type ghost struct{ calls int }
 func (g *ghost) Run() error { g.calls++; return nil }
 
 type rspec struct {
-	Class int // 0 P, 1 O, 2 N, 3 lazy-unordered, 4 unordered and also a component post-processor
+	Class int // 0 P, 1 O, 2 N, 3 lazy-unordered, 4 unordered + component post-processor, 5 unordered non-struct type, 6 unordered + factory post-processor
 	Ord   int
 }
 
@@ -122,7 +141,7 @@ func TestRunners(t *testing.T) {
 		ids := make([]int, nr)
 		initFaults := 0
 		for i := range specs {
-			specs[i].Class = rapid.IntRange(0, 4).Draw(t, "class")
+			specs[i].Class = rapid.IntRange(0, 6).Draw(t, "class")
 			if specs[i].Class < 2 {
 				specs[i].Ord = ordGen.Draw(t, "ord")
 			}
@@ -145,6 +164,14 @@ func TestRunners(t *testing.T) {
 				c = &RunNO{zoo.Core{B: b}}
 			case 4:
 				c = &RunPP{zoo.Core{B: b}}
+			case 5:
+				c = &SliceRun{b}
+				if b.FailInit != zoo.NoFault { // no Init method on this shape
+					b.FailInit = zoo.NoFault
+					initFaults--
+				}
+			case 6:
+				c = &RunFPP{Core: zoo.Core{B: b}}
 			default:
 				c = &RunLazy{zoo.Core{B: b}}
 			}
